@@ -44,8 +44,108 @@ def t_deadlock():
     assert s1.digest() == s2.digest()
 
 
-def main():
+# ---------------------------------------------------------------------------
+# differential test: DetExecutor vs the real ThreadPoolExecutor
+# ---------------------------------------------------------------------------
+
+def _executor_script(make_executor, barrier_wait):
+    """Runs one script against an executor class; returns observations."""
+    obs = {}
+    ex = make_executor(1)
+    order = []
+    futs = [ex.submit(lambda i=i: order.append(i) or i * 2) for i in range(5)]
+    obs['results'] = [f.result() for f in futs]
+    obs['fifo'] = list(order)
+    # exception stored in the future, result() re-raises it
+    f = ex.submit(lambda: 1 / 0)
+    try:
+        f.result()
+        obs['exc'] = None
+    except ZeroDivisionError:
+        obs['exc'] = 'ZeroDivisionError'
+    # callback added to a finished future runs immediately, in the caller
+    ran = []
+    f2 = ex.submit(lambda: 7)
+    f2.result()
+    f2.add_done_callback(lambda fut: ran.append(fut.result()))
+    obs['late_callback_immediate'] = list(ran)
+    # an exception in a callback does not propagate
+    f3 = ex.submit(lambda: 8)
+    f3.result()
+    try:
+        f3.add_done_callback(lambda fut: 1 / 0)
+        obs['cb_exc_propagates'] = False
+    except ZeroDivisionError:
+        obs['cb_exc_propagates'] = True
+    # shutdown(wait=True) returns after queued work ran; submit afterwards raises
+    done = []
+    for i in range(3):
+        ex.submit(lambda i=i: done.append(i))
+    ex.shutdown(wait=True)
+    obs['after_shutdown'] = list(done)
+    try:
+        ex.submit(lambda: 0)
+        obs['submit_after_shutdown'] = None
+    except RuntimeError:
+        obs['submit_after_shutdown'] = 'RuntimeError'
+    # max_workers respected and reached: tasks block until the submitter releases them
+    ex2 = make_executor(2)
+    state = {'cur': 0, 'max': 0}
+    ev, wait_for_two = barrier_wait()
+
+    def task():
+        state['cur'] += 1
+        state['max'] = max(state['max'], state['cur'])
+        ev.wait()
+        state['cur'] -= 1
+    fs = [ex2.submit(task) for _ in range(4)]
+    wait_for_two(state)
+    ev.set()
+    for f in fs:
+        f.result()
+    ex2.shutdown()
+    obs['max_concurrency'] = state['max']
+    return obs
+
+
+def t_executor_differential():
+    import logging
+    logging.getLogger('concurrent.futures').setLevel(logging.CRITICAL)
+    import concurrent.futures
+    import threading
+    import time as _time
+
+    def real_barrier():
+        ev = threading.Event()
+
+        def wait_for_two(state):
+            t0 = _time.time()
+            while state['cur'] < 2 and _time.time() - t0 < 2:
+                _time.sleep(0.001)
+            _time.sleep(0.02)        # a third task must not start
+        return ev, wait_for_two
+    real = _executor_script(lambda n: concurrent.futures.ThreadPoolExecutor(max_workers=n), real_barrier)
+    out = {}
+
+    def main():
+        s = detsched.active()
+
+        def det_barrier():
+            ev = detsched.Event()
+
+            def wait_for_two(state):
+                s.point('selftest.wait', None, enabled=lambda: state['cur'] >= 2)
+            return ev, wait_for_two
+        out['det'] = _executor_script(lambda n: detsched.DetExecutor(max_workers=n), det_barrier)
+    s = Sched()
+    r = s.run(main)
+    assert r == 'ok', (r, s.outcome_detail)
+    assert out['det'] == real, f'DetExecutor differs from ThreadPoolExecutor:\n det={out["det"]}\nreal={real}'
+
+
+def main():  # noqa: F811
     t_deadlock()
+    t_executor_differential()
     print('selftest ok')
 
 
